@@ -269,6 +269,18 @@ class Fn:
                 return n
         return n
 
+    def value_source(self, n):
+        """Strip casts and copy/move constructions: the expression whose value initialises/assigns."""
+        n = self.strip_all_casts(n)
+        while n and self.is_construct(n):
+            args = [a for a in self.nodes[n].get('args', []) if self.nodes[a]['cls'] != 'CXXDefaultArgExpr']
+            cal = self.callee(n)
+            if len(args) == 1 and cal and cal.get('ctor') in ('copy', 'move'):
+                n = self.strip_all_casts(args[0])
+            else:
+                break
+        return n
+
     def is_call(self, n):
         return self.nodes[n]['cls'] in ('CallExpr', 'CXXMemberCallExpr', 'CXXOperatorCallExpr')
 
